@@ -26,6 +26,7 @@ type Profile struct {
 	RefPageLimit   int  `json:"refpagelimit"`   // Referrers API: at most this many descriptors per response, continued through a Link (0: one page)
 	NoServerFilter bool `json:"noserverfilter"` // Referrers API: the artifactType parameter is ignored (the client has to filter)
 	StrictAccept   bool `json:"strictaccept"`   // manifests are served only under a media type the request's Accept header lists
+	NoLenGet       bool `json:"nolenget"`       // blob GET bodies are streamed without a Content-Length (HEAD still tells the length)
 	Referrers      bool `json:"referrers"`      // Referrers API (and the OCI-Subject header on manifest PUT)
 	DigestHdr      bool `json:"digesthdr"`      // Docker-Content-Digest on blob / manifest responses
 	Range          bool `json:"range"`          // Accept-Ranges: bytes and Range requests on blobs
@@ -320,6 +321,8 @@ func (r *Registry) RoundTrip(req *http.Request) (*http.Response, error) {
 				if req.Method == http.MethodHead {
 					length = int64(len(out))
 					out = nil
+				} else if r.Profile.NoLenGet {
+					length = -1
 				}
 			}
 		case http.MethodDelete:
